@@ -171,6 +171,75 @@ func extractC01(c *ctxT) {
 		})
 	}
 
+	// ---- TryAttestation: what happens, inside the vote loop, once the power is not below the bar (top-level statements of
+	// the loop body after the `continue` guard): the last observed nonce is set unconditionally, the attestation is marked
+	// observed and stored, the handler runs through processAttestation, and the loop is left with `break`.
+	obsSetsLast, obsMarks, obsProcess, obsBreaks := false, false, false, false
+	if fd := c.findFunc(c01Keeper, "Keeper", "TryAttestation"); fd != nil && fd.Body != nil {
+		for _, st := range fd.Body.List {
+			rs, ok := st.(*ast.RangeStmt)
+			if !ok || rs.Body == nil {
+				continue
+			}
+			after := false
+			marked := false
+			for i, b := range rs.Body.List {
+				if x, ok := b.(*ast.IfStmt); ok && strings.HasPrefix(c.src(x.Cond), "attestationPower.") {
+					after = true
+					continue
+				}
+				if !after {
+					continue
+				}
+				switch x := b.(type) {
+				case *ast.ExprStmt:
+					switch c.src(x.X) {
+					case "k.SetLastObservedEventNonce(ctx, claim.GetEventNonce())":
+						obsSetsLast = true
+					case "k.SetAttestation(ctx, claim.GetEventNonce(), claim.ClaimHash(), att)":
+						if marked {
+							obsMarks = true
+						}
+					}
+				case *ast.AssignStmt:
+					if len(x.Lhs) == 1 && len(x.Rhs) == 1 && c.src(x.Lhs[0]) == "att.Observed" && c.src(x.Rhs[0]) == "true" {
+						marked = true
+					}
+					if len(x.Rhs) == 1 && c.src(x.Rhs[0]) == "k.processAttestation(ctx, claim)" {
+						obsProcess = true
+					}
+				case *ast.BranchStmt:
+					if x.Tok == token.BREAK && i == len(rs.Body.List)-1 {
+						obsBreaks = true
+					}
+				}
+			}
+		}
+	}
+	// ---- AttestationHandler: the three deferred claim types are only parked (SavePendingExecuteClaim), nothing else runs
+	parksOnly := false
+	if fd := c.findFunc(c01Keeper, "Keeper", "AttestationHandler"); fd != nil && fd.Body != nil {
+		ast.Inspect(fd.Body, func(n ast.Node) bool {
+			cc, ok := n.(*ast.CaseClause)
+			if !ok {
+				return true
+			}
+			var ts []string
+			for _, e := range cc.List {
+				ts = append(ts, c.src(e))
+			}
+			sort.Strings(ts)
+			if strings.Join(ts, ",") == "*types.MsgBridgeCallClaim,*types.MsgBridgeCallResultClaim,*types.MsgSendToFxClaim" {
+				if len(cc.Body) == 1 {
+					if es, ok := cc.Body[0].(*ast.ExprStmt); ok && c.src(es.X) == "k.SavePendingExecuteClaim(ctx, externalClaim)" {
+						parksOnly = true
+					}
+				}
+			}
+			return true
+		})
+	}
+
 	if m := regexp.MustCompile(`^\(\.quo .* \(\.lit (\d+)\)\)$`).FindStringSubmatch(reqExpr); m != nil && votesDiv < 0 {
 		votesDiv, _ = strconv.ParseInt(m[1], 10, 64) // the outermost operation divides by a literal
 	}
@@ -444,6 +513,11 @@ func extractC01(c *ctxT) {
 	w("checkBridgerIsOracle: `if !oracle.Online { return err }`", "claimRequiresOnline", "Bool", leanBool(online))
 	w("UnbondedOracle calls DelLastEventNonceByOracle", "unbondDeletesLastNonce", "Bool", leanBool(unbondDel))
 	w("UnbondedOracle and the delegate address' staking unbonding delegation: error unless one exists / ErrInvalid while one exists", "unbondUbdRule", "UbdRule", "."+ubdRule)
+	w("TryAttestation: once the bar is reached `SetLastObservedEventNonce(claim nonce)` runs unconditionally", "observeSetsLastObserved", "Bool", leanBool(obsSetsLast))
+	w("TryAttestation: once the bar is reached `att.Observed = true` is stored with SetAttestation", "observeMarksObserved", "Bool", leanBool(obsMarks))
+	w("TryAttestation: the handler runs through processAttestation (cache context)", "observeRunsHandler", "Bool", leanBool(obsProcess))
+	w("TryAttestation: the vote loop ends with `break` once the attestation was observed", "observeBreaksLoop", "Bool", leanBool(obsBreaks))
+	w("AttestationHandler: send-to-fx / bridge-call / bridge-call-result claims are ONLY parked (SavePendingExecuteClaim)", "deferredClaimsOnlyParked", "Bool", leanBool(parksOnly))
 	w("ExecuteClaim: `_, found := GetPendingExecuteClaim(ctx, eventNonce); if !found { return err }`", "execChecksPending", "Bool", leanBool(execChecks))
 	w("ExecuteClaim has an unconditional top-level `k.DeletePendingExecuteClaim(ctx, eventNonce)`", "execDeletesPending", "Bool", leanBool(execDeletes))
 	w("ExecuteClaim: the look-up precedes the deletion, and the deletion precedes every statement that calls a handler", "execDeletesBeforeHandler", "Bool", leanBool(execDeleteFirst))
@@ -480,7 +554,8 @@ func extractC01(c *ctxT) {
 	facts["C01.guards"] = map[string]bool{"contiguity": contig, "tallyNotObserved": tallyNotObs, "tallyNextNonce": tallyNext,
 		"online": online, "unbondDeletesLastNonce": unbondDel, "fallback": fallback,
 		"execChecksPending": execChecks, "execDeletesPending": execDeletes, "execDeletesBeforeHandler": execDeleteFirst,
-		"execErrorRevertsNativeAction": execInNative}
+		"execErrorRevertsNativeAction": execInNative, "observeSetsLastObserved": obsSetsLast, "observeMarksObserved": obsMarks,
+		"observeRunsHandler": obsProcess, "observeBreaksLoop": obsBreaks, "deferredClaimsOnlyParked": parksOnly}
 	for k, v := range facts {
 		c.facts[k] = v
 	}
